@@ -102,6 +102,8 @@ type ScriptPlan struct {
 	OuterSIDEmpty bool         `json:"outer_sid_empty,omitempty"`
 	Mutations     []Mutation   `json:"mutations,omitempty"`
 	Chunks        []int        `json:"chunks,omitempty"`
+	// EmptyReads: the transport answers every other Read with (0, nil)
+	EmptyReads bool `json:"empty_reads,omitempty"`
 	Trailer       []TrailerRec `json:"trailer,omitempty"` // records that follow the hello
 	ReadBuf       int          `json:"read_buf,omitempty"`
 	Expect        string       `json:"expect"` // accept | passthrough | reject (passthrough or abort) | abort
@@ -904,6 +906,8 @@ var (
 	// scriptCtxEndsAtWrite: NewConn's context is cancelled as the transport's
 	// first Write begins.
 	scriptCtxEndsAtWrite bool
+	// scriptEmptyReads: see ScriptPlan.EmptyReads
+	scriptEmptyReads bool
 	// scriptOpts: the option list to use instead of a fresh keyOptions(keys).
 	scriptOpts []ech.Option
 )
@@ -912,6 +916,7 @@ func runScriptW(keys []ech.Key, in []byte, chunks []int, readBuf int, afterNewCo
 	sc := simnet.NewScript(in)
 	sc.Chunks = chunks
 	sc.ErrWithData = scriptErrWithData
+	sc.EmptyBefore = scriptEmptyReads
 	if scriptWriteFails {
 		sc.WriteErrAt = 0
 	}
@@ -1110,8 +1115,12 @@ func executeScript(t *testing.T, prop string, seed uint64, p *ScriptPlan) *core.
 	scriptErrWithData = p.ErrWithData
 	scriptWriteFails = p.AlertWriteFails && p.Expect == "abort"
 	scriptCtxEndsAtWrite = p.CtxEndsAtAlert && p.Expect == "abort"
+	scriptEmptyReads = p.EmptyReads
 	o, _ := runScriptW(b.keys, in, p.Chunks, p.ReadBuf, flight)
-	scriptHook = nil
+	scriptHook, scriptEmptyReads = nil, false
+	if p.EmptyReads {
+		res.Probe("transport_with_empty_reads")
+	}
 	if flight != nil {
 		res.Probe("passthrough_hrr_second_hello")
 		if bytes.HasPrefix(o.out, flight) {
